@@ -22,6 +22,8 @@ type codecCfg struct {
 	Unmarshal func(data []byte, v interface{}) error // idem
 	Counting  *countingCodec                         // non-nil for the delegating codec
 	Exact     bool                                   // output expected to equal the standard library's up to JSON equivalence
+	Sides     int                                    // counting codecs: 1 marshaler installed, 2 unmarshaler installed, 3 both
+	Reduced   bool                                   // run on the small families only (cases.go smallFamily)
 }
 
 // countingCodec delegates to encoding/json and counts the calls per Go type
@@ -155,7 +157,29 @@ func customCodec() codecCfg {
 		Unmarshal: json.Unmarshal,
 		Counting:  c,
 		Exact:     true,
+		Sides:     3,
 	}
+}
+
+// oneSidedCodec: the two package-level variables are independent, a user may install only one of
+// them. The other direction then has to use the standard library, and nothing may call a nil codec.
+func oneSidedCodec(marshal bool) codecCfg {
+	c := &countingCodec{}
+	cfg := codecCfg{Marshal: json.Marshal, Unmarshal: json.Unmarshal, Counting: c, Exact: true, Reduced: true}
+	if marshal {
+		cfg.Name, cfg.Sides = "custom-marshal-only", 1
+		cfg.Install = func() {
+			osm.CustomJSONMarshaler = c
+			osm.CustomJSONUnmarshaler = nil
+		}
+	} else {
+		cfg.Name, cfg.Sides = "custom-unmarshal-only", 2
+		cfg.Install = func() {
+			osm.CustomJSONMarshaler = nil
+			osm.CustomJSONUnmarshaler = c
+		}
+	}
+	return cfg
 }
 
 // extraCodecs is filled by optional files (jsoniter, added by run.sh through
